@@ -1,8 +1,8 @@
 \* generated by props/_handshake.py (table CFGS) -- do not edit by hand
 SPECIFICATION LiveSpec
 CONSTANTS
-  Nodes <- NodesM
-  Conns <- ConnsLive
+  Nodes = {"A", "B", "O"}
+  Conns = {"c1", "c2", "a1"}
   Cl <- ClM
   Sv <- SvM
   Eph <- EphM
